@@ -14,7 +14,6 @@ for d in seeded/*${1:-}*/ seeded/adversarial/*${1:-}*/; do
   [ -f "$d/meta.json" ] && [ -f "$d/patch.diff" ] || continue
   name=$(basename "$d")
   # the one adversarial change the technique cannot see (documented): expected to be missed
-  if [ "$name" = "C13-regex-cache-key" ]; then echo "EXPECTED-MISS $name (process-wide first-writer-wins state: consistent inside every process, needs a comparison with a pristine process)"; continue; fi
   if [ "$name" = "C20-regex-ring-cache" ]; then echo "EXPECTED-MISS $name (needs more than 8192 distinct patterns in one process and a hot old pattern: beyond the warm-ups of the quick tier)"; continue; fi
   if [ "$name" = "C20-shared-decimal-context" ]; then echo "EXPECTED-MISS $name (unsynchronised memory inside FFI calls: outside the simulator's preemption points)"; continue; fi
   prop=$(python3 -c "import json,sys; print(json.load(open('$d/meta.json'))['property'])")
